@@ -572,15 +572,15 @@ package fdo
 //@   params s ctx msg
 //@   props C02 C09 C08 C10(sweep)
 //@   sweep bounds,panic,make,nilmem
-//@   callsites Sign 1
-//@   callsites New 1
+//@   callsites Sign1.Sign 1
+//@   callsites Suite.New 1
 //@   callsites SetXSession 1
-//@   callassert Sign#1: @ownerkey KeyEq(SignerPub(u(ownerKey)), u(expectedCUPHOwnerKey)) && u(arg1) == u(ownerKey)
-//@   callassert Sign#1: @entries len(ov.Entries) > 0 && numEntries == len(ov.Entries)
-//@   callassert Sign#1: @voucher u(ov) == VoucherFor(u(hello.GUID))
-//@   callassert New#1: @valid validatedfor(expectedCUPHOwnerKey) == u(hello.KexSuiteName)
-//@   callassert New#1: @available SuiteAvail(u(hello.KexSuiteName), u(hello.CipherSuite))
-//@   callassert New#1: @args u(arg0) == u(hello.KexSuiteName) && len(arg1) == 0 && arg2 == hello.CipherSuite
+//@   callassert Sign1.Sign#1: @ownerkey KeyEq(SignerPub(u(ownerKey)), u(expectedCUPHOwnerKey)) && u(arg1) == u(ownerKey)
+//@   callassert Sign1.Sign#1: @entries len(ov.Entries) > 0 && numEntries == len(ov.Entries)
+//@   callassert Sign1.Sign#1: @voucher u(ov) == VoucherFor(u(hello.GUID))
+//@   callassert Suite.New#1: @valid validatedfor(expectedCUPHOwnerKey) == u(hello.KexSuiteName)
+//@   callassert Suite.New#1: @available SuiteAvail(u(hello.KexSuiteName), u(hello.CipherSuite))
+//@   callassert Suite.New#1: @args u(arg0) == u(hello.KexSuiteName) && len(arg1) == 0 && arg2 == hello.CipherSuite
 //@   callassert SetXSession#1: @session u(arg2) == u(hello.KexSuiteName) && u(arg3) == u(sess)
 //@   callassert SetProveDeviceNonce#1: @nonce u(arg2) == u(proveDeviceNonce)
 //@   ensures @nonnil err == nil ==> result0 != nil
